@@ -141,6 +141,50 @@ theorem rows_independent (f : List (Cx ℝ) → List (Cx ℝ)) (rows : List (Lis
     (rows.map f).map List.length = rows.map List.length := by
   simp [List.map_map, Function.comp_def, hlen]
 
+/-! ### whole containers: every polarisation alike, noise handed through -/
+
+/-- `DM` leaves the noise component exactly as it was (its `fft`/`ifft` round trip is the identity, C02) and keeps its
+    presence; every signal row is filtered by the same response -/
+theorem dm_container (dConv fs D : ℝ) (p : Payload ℝ) :
+    (dmPayload dConv fs D p).noise = p.noise ∧ (dmPayload dConv fs D p).sig = p.sig.map (dmRow dConv fs D) := by
+  refine ⟨?_, rfl⟩
+  cases h : p.noise with
+  | none => simp [dmPayload, h]
+  | some nz =>
+    simp only [dmPayload, h, Option.map_some]
+    congr 1
+    conv_rhs => rw [← List.map_id nz]
+    apply List.map_congr_left
+    intro r _
+    simp [Fourier.idft_dft]
+
+/-- energy conservation and invertibility lift to containers: per polarisation, with the noise untouched -/
+theorem dm_container_energy (dConv fs D : ℝ) (p : Payload ℝ) :
+    (dmPayload dConv fs D p).sig.map sumSq = p.sig.map sumSq := by
+  simp [dmPayload, List.map_map, Function.comp_def, dm_energy]
+
+theorem dm_container_inv (dConv fs D : ℝ) (p : Payload ℝ) :
+    dmPayload dConv fs (-D) (dmPayload dConv fs D p) = p := by
+  obtain ⟨sig, noise⟩ := p
+  have h1 : (sig.map (dmRow dConv fs D)).map (dmRow dConv fs (-D)) = sig := by
+    rw [List.map_map]
+    conv_rhs => rw [← List.map_id sig]
+    apply List.map_congr_left
+    intro r _
+    simp [dm_inv]
+  have h2 := (dm_container dConv fs (-D) (dmPayload dConv fs D ⟨sig, noise⟩)).1
+  have h3 := (dm_container dConv fs D ⟨sig, noise⟩).1
+  simp only [dmPayload] at *
+  simp only [h1]
+  congr 1
+  rw [h2, h3]
+
+theorem fiber_container (wConv kappa fs alpha b2 b3 L : ℝ) (p : Payload ℝ) :
+    (fiberLinPayload wConv kappa fs alpha b2 b3 L p).noise = p.noise ∧
+    (fiberLinPayload wConv kappa fs alpha b2 b3 L p).sig.map List.length = p.sig.map List.length := by
+  refine ⟨rfl, ?_⟩
+  simp [fiberLinPayload, List.map_map, Function.comp_def, fiber_length]
+
 /-! ### non-vacuity -/
 example : ∃ xs : List (Cx ℝ), xs.length = 3 ∧ sumSq (dmRow 1 1 5 xs) = sumSq xs :=
   ⟨[⟨1, 0⟩, ⟨0, 2⟩, ⟨-1, 1⟩], rfl, dm_energy _ _ _ _⟩
